@@ -103,7 +103,8 @@ class Arg:
         if k in ("D", "DA", "DAS", "I"): return [self.w(s, "&" + n, wrap)]
         if k in ("L", "C"): return [clit(self.data)]
         if k in ("P", "Q", "G", "K", "A", "U", "E", "AS"): return [self.w(s, n, wrap)]
-        if k in ("B", "V"): return [self.w(s, n, wrap), str(self.n)]
+        if k in ("B", "V"):   # the length is an expression of its own: counted separately (slot 64 + i)
+            return [self.w(s, n, wrap), ("(ev[%d]++, (size_t)%d)" % (64 + self.i, self.n)) if wrap else str(self.n)]
         if k == "N": return [self.w(s, "(size_t)%d" % self.n, wrap)]
         if k == "F": return [self.w(s, self.cflags(), wrap)]
         if k == "M": return [self.f + "_%s"]     # completed by the emitter with the element type
@@ -438,7 +439,8 @@ def emit(case, k):
     sub = lambda t, s: (case._out[0 if s == "m" else 1] if t == "@" else t.replace("$", s))
     unch = [x.unchanged("m") for x in ins if x.unchanged("m")]
     nwrapped = [x.i for x in a if x.k not in ("L", "C", "M", "TY", "X", "W", "OP", "O") and not (mac == "dealloc" and x.k == "N")]
-    evchk = " && ".join("ev[%d] == 1" % i for i in nwrapped) or "1"
+    nlen = [64 + x.i for x in a if x.k in ("B", "V") and x.i in nwrapped]
+    evchk = " && ".join("ev[%d] == 1" % i for i in nwrapped + nlen) or "1"
     lines = []
     lines.append("    case %d: { /* %s */" % (k, case.line))
     lines.append("        { EV_RESET(); %s" % decl("m"))
@@ -446,7 +448,7 @@ def emit(case, k):
     lines.append("          printf(\"%d m \"); %s" % (k, sub(out, "m")))
     lines.append("          printf(\" in=%%s\", (%s) ? \"ok\" : \"CHANGED\");" % (" && ".join(unch) or "1"))
     if fresh: lines.append("          printf(\" fresh=%%s\", (%s) ? \"ok\" : \"NOT-FRESH\");" % fresh)
-    lines.append("          if (%s) printf(\" ev=ok\"); else { printf(\" ev=\"); for (int i = 0; i < %d; i++) printf(\"%%d\", ev[i]); }" % (evchk, len(a)))
+    lines.append("          if (%s) printf(\" ev=ok\"); else { printf(\" ev=\"); for (int i = 0; i < %d; i++) printf(\"%%d\", ev[i]); printf(\"/\"); for (int i = 64; i < %d; i++) printf(\"%%d\", ev[i]); }" % (evchk, len(a), 64 + len(a)))
     lines.append("          puts(\"\"); }")
     lines.append("        { %s" % decl("f"))
     lines.append("          %s" % res_f)
